@@ -17,6 +17,7 @@ objects are in the same places) - the Numbering keeps the objects alive, hence
 `id()` cannot be re-used between the two dumps of one attempt.
 
 Deliberately NOT part of the fingerprint (not observable code or state):
+the class / datatype of an *imported* symbol (resolution cache),
 fparser parse-tree links (`_ast`...), back pointers (`_parent`, `_invoke`,
 `_psy`...), lazily created caches (ContainerSymbol._reference, a kernel
 schedule that did not exist before the attempt), iteration order of sets
@@ -217,6 +218,16 @@ class _Dumper:
                 skipped.add(id(sym))
                 continue
             dct = vars(sym)
+            if type(dct.get("_interface")).__name__ == "ImportInterface":
+                # an imported symbol is written as part of a USE statement
+                # only; its class and type are filled in (specialise /
+                # resolve_type) whenever some analysis resolves the import
+                attrs = [f"{k}={self.val(dct[k], 1)}"
+                         for k in ("_interface", "_name", "_visibility")
+                         if k in dct]
+                lines.append(f"  {key} Imported#{self.n.num(sym)} "
+                             + " ".join(attrs))
+                continue
             attrs = [f"{k}={self.val(dct[k], 1)}" for k in sorted(dct)
                      if k not in _SKIP_SYM_ATTRS]
             lines.append(f"  {key} {type(sym).__name__}#{self.n.num(sym)} "
